@@ -8,21 +8,39 @@ package props
 // compared after every operation.
 
 import (
+	"context"
 	"fmt"
 	"sort"
 	"strings"
 	"testing"
+	"unicode/utf8"
 
 	"git.defalsify.org/vise.git/cache"
+	"git.defalsify.org/vise.git/db"
+	"git.defalsify.org/vise.git/persist"
+	"git.defalsify.org/vise.git/state"
 	"pgregory.net/rapid"
+
+	"verifharness/app"
 )
 
+func mustOpen(s app.Storage) db.Db {
+	d, err := s.Open(context.Background())
+	if err != nil {
+		panic(err)
+	}
+	return d
+}
+
 type C09Op struct {
-	Kind  string `json:"kind"` // add update get push pop reset last reserved
+	Kind  string `json:"kind"` // add update get push pop reset last reserved save load
 	Key   string `json:"key,omitempty"`
 	Len   int    `json:"len,omitempty"`
 	Fill  string `json:"fill,omitempty"`
 	Limit uint16 `json:"limit,omitempty"`
+	// Slot (save, load): which of two stored records; load decodes the record INTO the live
+	// cache object, the way a persister that is kept between requests does
+	Slot int `json:"slot,omitempty"`
 }
 
 type C09Case struct {
@@ -46,7 +64,7 @@ func genC09(t *rapid.T) C09Case {
 
 func genC09Op(t *rapid.T) C09Op {
 	{
-		k := rapid.SampledFrom([]string{"add", "add", "add", "update", "update", "get", "push", "pop", "reset", "last", "reserved"}).Draw(t, "kind")
+		k := rapid.SampledFrom([]string{"add", "add", "add", "add", "add", "add", "update", "update", "update", "update", "get", "get", "push", "push", "pop", "pop", "reset", "reset", "last", "last", "reserved", "reserved", "save", "save", "load"}).Draw(t, "kind")
 		op := C09Op{Kind: k}
 		switch k {
 		case "add", "update":
@@ -76,6 +94,8 @@ func genC09Op(t *rapid.T) C09Op {
 			}
 		case "get", "reserved":
 			op.Key = rapid.SampledFrom(c09Keys).Draw(t, "key")
+		case "save", "load":
+			op.Slot = uniformN(t, 2, "slot")
 		}
 		return op
 	}
@@ -89,6 +109,35 @@ type refCache struct {
 	frames []map[string]string
 	limits map[string]uint16
 	last   string
+}
+
+func (r *refCache) clone() *refCache {
+	c := &refCache{cap: r.cap, used: r.used, limits: map[string]uint16{}, last: r.last}
+	for k, v := range r.limits {
+		c.limits[k] = v
+	}
+	for _, f := range r.frames {
+		m := map[string]string{}
+		for k, v := range f {
+			m[k] = v
+		}
+		c.frames = append(c.frames, m)
+	}
+	return c
+}
+
+func (r *refCache) storable() bool {
+	if !utf8.ValidString(r.last) {
+		return false
+	}
+	for _, f := range r.frames {
+		for _, v := range f {
+			if !utf8.ValidString(v) {
+				return false
+			}
+		}
+	}
+	return true
 }
 
 func newRefCache(capacity uint32) *refCache {
@@ -289,6 +338,8 @@ func checkC09(c C09Case) (o Outcome) {
 	ref := newRefCache(c.Capacity)
 	adds, rejected, updOrPopAfter2 := 0, 0, false
 	lastKnown := true
+	pe := persist.NewPersister(mustOpen(app.NewMemStorage())).WithContent(state.NewState(0), ca)
+	saved := map[int]*refCache{}
 	for i, op := range c.Ops {
 		at := func(kind, format string, a ...any) Outcome {
 			o.Viol = viol(kind, "op %d %+v: %s", i, op, fmt.Sprintf(format, a...))
@@ -388,6 +439,26 @@ func checkC09(c C09Case) (o Outcome) {
 		case "reset":
 			ref.reset()
 			ca.Reset()
+		case "save":
+			if !ref.storable() {
+				// F-C07-1: a value that is not valid UTF-8 cannot be read back
+				o.class("save-skipped:not-utf8")
+				continue
+			}
+			if err := pe.Save(fmt.Sprintf("slot%d", op.Slot)); err != nil {
+				return at("save-error", "saving the cache fails: %v", err)
+			}
+			saved[op.Slot] = ref.clone()
+		case "load":
+			if saved[op.Slot] == nil {
+				continue
+			}
+			if err := pe.Load(fmt.Sprintf("slot%d", op.Slot)); err != nil {
+				return at("load-error", "loading a saved cache into the live object fails: %v", err)
+			}
+			ref = saved[op.Slot].clone()
+			lastKnown = true
+			o.class("loaded-into-live-object")
 		case "last":
 			got := ca.Last()
 			if lastKnown && got != ref.last {
